@@ -19,6 +19,8 @@ func init() {
 			"Holds for every loss point and loss kind because call sites, not executions, are enumerated. NOT decided: promptness in wall-clock terms; nil-pointer panics inside a transport implementation after loss.",
 		Assumptions: []string{"a failing transport reports through its error result", "user callbacks/OnOpen functions are outside the library"},
 		Mutants: []Mutant{
+			{ID: "C06-netconf-reader-gives-up", Desc: "NETCONF reader returns after handing one channel error over", Rule: "C06/netconf-forward",
+				Edits: []Edit{{File: "driver/netconf/read.go", Old: "\t\t\td.errs <- err\n\t\t}", New: "\t\t\tselect {\n\t\t\tcase d.errs <- err:\n\t\t\tcase <-d.done:\n\t\t\t}\n\n\t\t\treturn\n\t\t}"}}},
 			{ID: "C06-timeout-errors-swallowed", Desc: "Transport.read turns read errors that look like timeouts into empty reads (function with a deferred unlock)", Rule: "C06/propagate",
 				Edits: []Edit{{File: "transport/transport.go", Old: "\tdefer t.implLock.Unlock()\n\n\treturn t.Impl.Read(n)", New: "\tdefer t.implLock.Unlock()\n\n\tb, err := t.Impl.Read(n)\n\tif err != nil {\n\t\tif errors.Is(err, ErrTimeoutLike) {\n\t\t\treturn nil, nil\n\t\t}\n\n\t\treturn nil, err\n\t}\n\n\treturn b, nil"},
 					{File: "transport/transport.go", Old: "func (t *Transport) read(n int) ([]byte, error) {", New: "// ErrTimeoutLike marks errors treated as an empty read.\nvar ErrTimeoutLike = errors.New(\"timeout\")\n\nfunc (t *Transport) read(n int) ([]byte, error) {"}}},
@@ -49,7 +51,7 @@ func runC06(c *Ctx, r *Report) {
 	checkErrorClasses(c, r, "C06")
 	r.Rule("C06/propagate", "at every call site of an I/O-capable function the error surfaces (returned, sent, or stored in a returned/sent result) and the failing edge neither retries, nor continues with I/O, nor returns success", 90)
 	r.Rule("C06/reader", "the channel read loop exits on end-of-stream, sets the exited flag on every exit, and Channel.Read tests error channel and exited flag before dequeuing", 4)
-	r.Rule("C06/netconf-forward", "sendRPC waits on the NETCONF error channel and returns the error it receives", 1)
+	r.Rule("C06/netconf-forward", "sendRPC waits on the NETCONF error channel and returns the error it receives; the NETCONF reader never leaves its loop because of a channel error", 2)
 
 	io := c.ioCapable()
 	// interface methods of transport.Implementation count as I/O too
@@ -109,6 +111,7 @@ func runC06(c *Ctx, r *Report) {
 	r.Extra["io_call_sites"] = nsites
 	checkReaderExit(c, r)
 	checkNetconfForward(c, r)
+	checkNetconfReaderKeepsReporting(c, r)
 }
 
 // namedErrException: deliberate drops, each one named symbol with a reason.
@@ -361,4 +364,88 @@ func checkNetconfForward(c *Ctx, r *Report) {
 	})
 	r.Check(ok, rule, "sendRPC waits on errs", c.Pos(fn.Pos()), "select case on the error channel returns the error",
 		"sendRPC does not wait on the NETCONF error channel: after a connection loss the RPC in flight waits out its whole timeout")
+}
+
+// checkNetconfReaderKeepsReporting: the NETCONF reader is what turns a dead channel into an error for EVERY later rpc
+// (Channel.Read fails again on each poll and the reader offers that error again). It may therefore not leave its loop
+// because of a channel error: from the failing edge of its Channel.Read no return is reachable before the next poll.
+func checkNetconfReaderKeepsReporting(c *Ctx, r *Report) {
+	rule := "C06/netconf-forward"
+	fn := c.LookupFunc("driver/netconf", "Driver", "read")
+	chRead := c.LookupFunc("channel", "Channel", "Read")
+	if fn == nil || chRead == nil {
+		r.Anchor(rule, "(*netconf.Driver).read / (*channel.Channel).Read")
+		return
+	}
+	n := 0
+	for _, ci := range staticCallsTo(fn, chRead) {
+		call, ok := ci.(*ssa.Call)
+		if !ok {
+			continue
+		}
+		errs := errResultsOf(call)
+		if len(errs) != 1 {
+			continue
+		}
+		for _, b := range fn.Blocks {
+			cond := ifCond(b)
+			if cond == nil {
+				continue
+			}
+			x, nonNilOnTrue, isNil := nilCheck(cond)
+			if !isNil || x != errs[0] {
+				continue
+			}
+			failing := b.Succs[1]
+			if nonNilOnTrue {
+				failing = b.Succs[0]
+			}
+			n++
+			construct := "NETCONF reader after a channel error"
+			stop := func(in ssa.Instruction) bool { return in == ssa.Instruction(call) }
+			rr := reachFrom(fn, failing.Instrs[0], stop, nil)
+			var exit ssa.Instruction
+			for in := range rr.visited {
+				if isReturn(in) && len(in.Block().Preds) > 0 {
+					// leaving because Close asked for it (a receive from done on the path) is fine
+					if guardedBySelectRecvNamed(in, "done") {
+						continue
+					}
+					exit = in
+				}
+			}
+			if isReturn(failing.Instrs[0]) {
+				exit = failing.Instrs[0]
+			}
+			if exit != nil {
+				r.Bad(rule, construct, c.Pos(exit.Pos()), "the reader leaves its loop after handing a channel error to (at most) one rpc: nobody offers the error to the rpcs that follow, each of them waits out its whole timeout (for ever with a zero timeout) instead of failing promptly", rr.witness(c, exit)...)
+			} else {
+				r.OK(rule, construct, c.Pos(b.Instrs[len(b.Instrs)-1].Pos()), "stays in its loop: the error is offered again on every poll")
+			}
+		}
+	}
+	if n == 0 {
+		r.Unk(rule, "NETCONF reader after a channel error", c.Pos(fn.Pos()), "the reader does not test the error of Channel.Read")
+	}
+}
+
+// guardedBySelectRecvNamed: the block of `in` is the body of a select case that received from a struct-field channel
+// with the given name.
+func guardedBySelectRecvNamed(in ssa.Instruction, field string) bool {
+	fn := in.Parent()
+	found := false
+	allInstrs(fn, func(x ssa.Instruction) {
+		sel, ok := x.(*ssa.Select)
+		if !ok {
+			return
+		}
+		idx, isCase := selectCaseOf(in.Block(), sel)
+		if !isCase || idx < 0 || idx >= len(sel.States) {
+			return
+		}
+		if f, _, _ := chanOrigin(sel.States[idx].Chan); f != nil && f.Name() == field && sel.States[idx].Dir == types.RecvOnly {
+			found = true
+		}
+	})
+	return found
 }
